@@ -177,6 +177,17 @@ func workerMain(prop string) {
 		debug.SetGCPercent(-1)
 	}
 	installRandSeam()
+	// A worker whose controller has died (killed, crashed) must not go on
+	// spinning in a plan nobody will judge.
+	ppid := os.Getppid()
+	go func() {
+		for {
+			time.Sleep(time.Second)
+			if os.Getppid() != ppid {
+				os.Exit(3)
+			}
+		}
+	}()
 	in := bufio.NewReaderSize(os.Stdin, 1<<20)
 	out := bufio.NewWriter(os.Stdout)
 	enc := json.NewEncoder(out)
